@@ -17,7 +17,7 @@ RULE = ("cases = scripts with 1..3 CREATE SEQUENCE statements between neighbour 
         "(exhaustive over orders, seeded choice of spelling variant and value), then random; values from {0, +-1, +-small, "
         "+-2^31, +-(2^63-1), -2^63, leading '+'}; keyword case random; one option per line or single line. "
         "Non-trivial = at least one option present; distinct = distinct DDL text."
-        " Added after seeded defects: verbatim names with dots inside quotes and names spelled like the option keywords behind a schema, scripts with CRLF line ends, statements without ';' closed by the start of the next CREATE statement; wave 9: SET lines as neighbours (directly before / after one-line sequences), names beginning like COLLATE / AUTO_INCREMENT.")
+        " Added after seeded defects: verbatim names with dots inside quotes and names spelled like the option keywords behind a schema, scripts with CRLF line ends, statements without ';' closed by the start of the next CREATE statement; wave 9: SET lines as neighbours (directly before / after one-line sequences), names beginning like COLLATE / AUTO_INCREMENT; wave 10: neighbour tables CALLED cache / start / increment / minvalue ... with an index on them.")
 ASSUMPTIONS = ["each option appears at most once per sequence", "IF NOT EXISTS on sequences is not named by the property and not generated"]
 MIN_EVENTS = {"statements": 50, "run_return": 50}
 
@@ -105,6 +105,15 @@ NEIGHBOURS = [
     # SET lines (session settings of psql / pg_dump scripts) directly before and after one-line sequences
     "SET opt%d = 1;", "SET search_path%d = public;",
 ]
+# a table CALLED like an option word, with an index on it (the word stands alone before the first parenthesis of a statement that is not a sequence)
+OPTION_WORD_TABLES = ["cache", "start", "increment", "minvalue", "maxvalue", "Cache", "START", "cycle", "order", "noorder"]
+
+
+def pick_neighbour(rng, n):
+    if rng.random() < 0.15:
+        w = OPTION_WORD_TABLES[n % len(OPTION_WORD_TABLES)]
+        return "CREATE TABLE %s (id int);\nCREATE %sINDEX ix%d ON %s (id);" % (w, rng.choice(["", "UNIQUE "]), n, w)
+    return rng.choice(NEIGHBOURS) % n
 
 
 def render_seq(head, opt_toks, layout, rng):
@@ -125,7 +134,7 @@ def build_case(rng, orders, gen):
     n = 0
     for order in orders:
         if rng.random() < 0.5:
-            nb = rng.choice(NEIGHBOURS) % n
+            nb = pick_neighbour(rng, n)
             n += 1
             stmts.append(nb)
             plan.append({"kind": "neighbour", "ddl": nb})
@@ -134,7 +143,7 @@ def build_case(rng, orders, gen):
         stmts.append(render_seq(head, opt_toks, rng.choice(["single", "lines", "ws"]), rng))
         plan.append({"kind": "sequence", "expected": exp})
     if rng.random() < 0.5:
-        nb = rng.choice(NEIGHBOURS) % n
+        nb = pick_neighbour(rng, n)
         stmts.append(nb)
         plan.append({"kind": "neighbour", "ddl": nb})
     # (statements without ';' are not combined with SET lines: on the pinned tree a statement that is still pending because its predecessor had
